@@ -29,6 +29,7 @@ type fakeContainer struct {
 	Events        []evt       `json:"events"`
 	OpenFail      bool        `json:"open_fail"`
 	OpenFailClass string      `json:"open_fail_class"`
+	CloseErr      bool        `json:"close_err"`
 }
 
 type fakeDocker struct {
@@ -221,7 +222,7 @@ func (f *fakeDocker) ContainerLogs(ctx context.Context, id string, options apico
 		}
 		return nil, errOpenInjected
 	}
-	rd := &evReader{evs: append([]evt(nil), c.Events...), cid: c.ID, ctx: ctx}
+	rd := &evReader{evs: append([]evt(nil), c.Events...), cid: c.ID, ctx: ctx, closeErr: c.CloseErr}
 	f.mu.Lock()
 	f.readers = append(f.readers, rd)
 	f.opens++
